@@ -74,8 +74,12 @@ def scen_convert(ch, params, out):
     val = build(inner, ATOMS[atom])
     # siblings: plain values, a float-string list sharing a literal with the target (for int atoms), and a key equal to the class name
     shared_literal = ATOMS[atom][0] if atom == "int" else "12"
-    s1 = {"plain": "some text", "num": 3, "empty": [], "nul": None, "target": val, "floats": [shared_literal, "2.5"], "Root": "77"}
-    s2 = {"plain": "other text", "num": 4, "empty": [], "nul": None, "floats": ["0.5", shared_literal], "Root": "78"}
+    n_extra = ch.choose("extra_int_string_fields", params.get("extra_fields", [0, 5, 6, 14]))
+    s1 = {"mixed": 1, "plain": "some text", "num": 3, "empty": [], "nul": None, "target": val, "floats": [shared_literal, "2.5"], "Root": "77"}
+    s2 = {"mixed": [1.5], "plain": "other text", "num": 4, "empty": [], "nul": None, "floats": ["0.5", shared_literal], "Root": "78"}
+    for e in range(n_extra):
+        s1[f"extra{e}"] = str(100 + e)
+        s2[f"extra{e}"] = str(200 + e)
     if not top_optional:
         s2["target"] = build(inner, ATOMS[atom][::-1])
     elif null_form == "null":
@@ -147,6 +151,11 @@ def scen_convert(ch, params, out):
                 rv = getattr(obj, name_of.get("Root", "Root"))
                 out.check(type(rv) is dt.IntString and rv == int(s["Root"]), "converted_value_wrong",
                           lambda: f"sample {si}: field for key 'Root' holds {rv!r} of {type(rv).__name__} ({ctx()})\n{text}", "converted_value_wrong:key_named_like_class")
+            if conv:
+                for e in range(n_extra):
+                    ev = getattr(obj, f"extra{e}")
+                    out.check(type(ev) is dt.IntString and ev == int(s[f"extra{e}"]), "converted_value_wrong",
+                              lambda: f"sample {si}: extra{e} holds {ev!r} of {type(ev).__name__} with {n_extra} extra fields ({ctx()})", "converted_value_wrong:extra_field")
             for other in ("plain", "num", "empty", "nul"):
                 out.check(getattr(obj, other) == s[other] and type(getattr(obj, other)) is type(s[other]), "other_field_touched",
                           lambda: f"{other}: {getattr(obj, other)!r} vs {s[other]!r} ({ctx()})", "other_field_touched")
@@ -180,5 +189,5 @@ META = {
     "symbolic_on_path": ["nesting path", "pseudo-type atom", "framework", "converters bit", "how a top-level Optional is realised (missing key / null)"],
     "bounds": {"quick": "paths of depth <=2 x 5 atoms and depth 3 x {int, time}; 2 frameworks x converters on/off", "thorough": "depth <=3 x 6 atoms"},
     "outside_claim": ["paths deeper than 3", "unions inside the path (documented as not convertible)"],
-    "assumptions": ["Dict nestings are obtained with dict_keys_fields / a dict_keys_regex on k1,k2", "sibling fields: a plain string, an int, an empty list, a null"],
+    "assumptions": ["Dict nestings are obtained with dict_keys_fields / a dict_keys_regex on k1,k2", "sibling fields: a union-typed field first, a plain string, an int, an empty list, a null, a List[FloatString] sharing a literal with the target, a key named like the class, 0/5/6/14 extra IntString fields"],
 }
